@@ -117,10 +117,16 @@ class Effects:
                     if names is None and isinstance(a, ast.Name):
                         # `for name in ("a", "b"): setattr(x, name, ...)`: the literal tuple enumerates the attributes
                         for lp in ast.walk(func.node):
-                            if isinstance(lp, ast.For) and isinstance(lp.target, ast.Name) and lp.target.id == a.id and any(x is n for x in ast.walk(lp)) \
-                                    and isinstance(lp.iter, (ast.Tuple, ast.List)) and lp.iter.elts \
-                                    and all(isinstance(x, ast.Constant) and isinstance(x.value, str) for x in lp.iter.elts):
-                                names = [x.value for x in lp.iter.elts]
+                            if isinstance(lp, ast.For) and isinstance(lp.target, ast.Name) and lp.target.id == a.id and any(x is n for x in ast.walk(lp)):
+                                it = lp.iter
+                                if isinstance(it, ast.Name):
+                                    # the tuple of names was given a name first: a local bound once, or a module-level constant
+                                    defs = [st0.value for st0 in ast.walk(func.node) if isinstance(st0, ast.Assign) and any(isinstance(t, ast.Name) and t.id == it.id for t in st0.targets)]
+                                    if not defs:
+                                        defs = [st0.value for st0 in func.module.tree.body if isinstance(st0, ast.Assign) and any(isinstance(t, ast.Name) and t.id == it.id for t in st0.targets)]
+                                    it = defs[0] if len(defs) == 1 else it
+                                if isinstance(it, (ast.Tuple, ast.List)) and it.elts and all(isinstance(x, ast.Constant) and isinstance(x.value, str) for x in it.elts):
+                                    names = [x.value for x in it.elts]
                     for nm in (names or ["*"]):
                         if n.func.id == "setattr":
                             effs.append(Effect("store", recv_info(n.args[0]), nm, n, n.args[0], func, op="setattr", value=n.args[2] if len(n.args) > 2 else None, stmt=n))
